@@ -120,23 +120,35 @@ where
         setup().await;
         let mut last: Option<u64> = None;
         let mut idle_rounds = 0;
+        let mut silent_rounds = 0;
+        let mut last_seq = verif::event_seq();
         loop {
             if steps >= max_steps {
                 break;
             }
             match tokio::time::timeout(Duration::from_millis(grace_ms), verif::DriverWait).await {
                 Err(_) => {
-                    if settled() {
+                    // activity on the spawner's thread (drops after an abort) shows as new events
+                    let seq = verif::event_seq();
+                    if seq != last_seq {
+                        last_seq = seq;
+                        silent_rounds = 0;
+                    } else {
+                        silent_rounds += 1;
+                    }
+                    if silent_rounds >= 2 && settled() {
                         quiescent = true;
                         break;
                     }
                     idle_rounds += 1;
-                    if idle_rounds >= 20 {
+                    if idle_rounds >= 40 {
                         break;
                     }
                 }
                 Ok(mut r) => {
                     idle_rounds = 0;
+                    silent_rounds = 0;
+                    last_seq = verif::event_seq();
                     let mut cont = false;
                     if let Some(l) = last {
                         if let Some(p) = r.iter().position(|x| x.0 == l) {
